@@ -134,9 +134,9 @@ func fieldOf(msg []byte, h *hello.Hello, off int) string {
 func TestC02(t *testing.T) {
 	rec := ev.Get("C02")
 	thorough := os.Getenv("VERIF_TIER") == "thorough"
-	rec.Rule("valid sealed tuples (C03 generator); per tuple: positive control, then single-bit flips of the ClientHello message body (quick: 96 sampled bits; thorough: every bit), header flips (tolerant), and the substitutions wrong key (same/other id), wrong info (config differing in public name / suites / id with the same private key), suite named != suite used, wrong config id, enc/payload truncated/extended/swapped, AAD over a different session id, and length-consistent structural alterations (bytes appended inside the ECH extension, extension added/removed/grown/swapped, cipher suite, session id, compression method changed). Oracle: never accepted; fall-back byte-exact when the mutated message is still well-formed. distinct = (hello hash, mutation); every mutation is non-trivial")
+	rec.Rule("valid sealed tuples (C03 generator); per tuple: positive control, then single-bit flips of the ClientHello message body (quick: 96 sampled bits; thorough: every bit), header flips (tolerant), and the substitutions wrong key (same/other id), wrong info (config differing in public name / suites / id with the same private key; concatenation of two held configs of the same id), suite named != suite used, wrong config id, enc/payload truncated/extended/swapped, AAD over a different session id, and length-consistent structural alterations (bytes appended inside the ECH extension, extension added/removed/grown/swapped, cipher suite, session id, compression method changed). Oracle: never accepted; fall-back byte-exact when the mutated message is still well-formed. distinct = (hello hash, mutation); every mutation is non-trivial")
 	rec.Mandatory("flip:random", "flip:session_id", "flip:cipher_suites", "flip:ext_header", "flip:sni_body", "flip:ech_suite", "flip:ech_config_id", "flip:ech_enc", "flip:ech_payload", "flip:versions_body",
-		"sub:wrong_key_same_id", "sub:wrong_key_other_id", "sub:wrong_info_public_name", "sub:wrong_info_suites", "sub:suite_mismatch", "sub:wrong_config_id", "sub:enc_truncated", "sub:payload_truncated", "sub:payload_extended", "sub:payload_swapped", "sub:aad_other_sid", "sub:suite_not_offered", "sub:wrong_config_id_sealed",
+		"sub:wrong_key_same_id", "sub:wrong_key_other_id", "sub:wrong_info_public_name", "sub:wrong_info_suites", "sub:suite_mismatch", "sub:wrong_config_id", "sub:enc_truncated", "sub:payload_truncated", "sub:payload_extended", "sub:payload_swapped", "sub:aad_other_sid", "sub:suite_not_offered", "sub:wrong_config_id_sealed", "sub:wrong_info_concatenated_configs",
 		"struct:ech_ext_trailing_bytes", "struct:extension_added", "struct:extensions_swapped", "struct:extension_removed", "struct:extension_grown", "struct:cipher_suite_appended", "struct:session_id_changed", "struct:compression_appended")
 	rapid.Check(t, func(t *rapid.T) {
 		sc := drawSealed(t, false)
@@ -288,6 +288,29 @@ func TestC02(t *testing.T) {
 			}
 			withKeys([]*hello.Key{sc.Key, other3b}, "sub:wrong_config_id_sealed", "the hello names (in the AAD too) the id of another held key but is sealed to this key", hello.Record(22, sc.RecVer, mw))
 			withKeys([]*hello.Key{other3b, sc.Key}, "sub:wrong_config_id_sealed", "the hello names (in the AAD too) the id of another held key but is sealed to this key", hello.Record(22, sc.RecVer, mw))
+		}
+		// several held keys under the same id and suites: the info string of each trial
+		// decryption is bound to that key's config alone
+		{
+			sib := &hello.Key{Priv: other.Priv, ID: sc.Key.ID, PublicName: sc.Key.PublicName, Suites: sc.Key.Suites, Config: other2.Config}
+			both := []*hello.Key{sib, sc.Key}
+			// control: the authentic hello is accepted whatever precedes its key
+			checkAcceptedExact(t, "C02", sc, wire.New(sc.Record, io.EOF), both)
+			rec.Class("positive_control_sibling_key")
+			for _, cat := range [][]byte{append(append([]byte{}, sib.Config...), sc.Key.Config...), append(append([]byte{}, sc.Key.Config...), sib.Config...)} {
+				slc, err := hello.NewSealer(cat, sc.Key.Priv.PublicKey().Bytes(), sc.Suite, sc.Key.ID)
+				if err != nil {
+					t.Fatalf("harness: %v", err)
+				}
+				oc := sc.Tuple.Outer.Clone()
+				encc := hello.Encode(hello.Compress(sc.Tuple.Inner, sc.Tuple.RunStart, sc.Tuple.RunLen), make([]byte, sc.Tuple.Pad))
+				mc, err := slc.SealOuter(oc, encc, true)
+				if err != nil {
+					t.Fatalf("harness: %v", err)
+				}
+				withKeys(both, "sub:wrong_info_concatenated_configs", "the client's info string is the concatenation of two held configs, not the config of the key it sealed to", hello.Record(22, sc.RecVer, mc))
+				withKeys([]*hello.Key{sc.Key, sib}, "sub:wrong_info_concatenated_configs", "the client's info string is the concatenation of two held configs, not the config of the key it sealed to", hello.Record(22, sc.RecVer, mc))
+			}
 		}
 		// enc / payload truncated, extended
 		k := rapid.IntRange(1, len(enc)).Draw(t, "enc_cut")
